@@ -105,3 +105,30 @@ Proof.
   - exact (Bilinear.bil_linear_B K k0 k1 kadd kmul ksub kopp R no S A B dB).
 Qed.
 Print Assumptions C02_bilinear_partial_maps_linear.
+
+(* the polynomial primitives over ANY commutative ring (reals, complex numbers, ...): the forward and reverse rules read off
+   the source on this run (coq/gen/GenRingRules.v) are g times the coefficient D of the exact expansion
+   f(x + h) = f(x) + D h + R h^2 *)
+From AG Require Import PolyRules.
+From AGGen Require Import GenRingRules.
+Theorem C02_polynomial_rules_over_any_ring :
+  forall (K : Type) (k0 k1 : K) (kadd kmul ksub : K -> K -> K) (kopp : K -> K),
+    ring_theory k0 k1 kadd kmul ksub kopp eq ->
+    forall x y : K,
+      (is_rule K kadd kmul (fun t => kadd t y) x k1 k0 (ring_vjp_add_0 K (kadd x y) x y) (fun g => ring_jvp_add_0 K g (kadd x y) x y)
+       /\ is_rule K kadd kmul (fun t => kadd x t) y k1 k0 (ring_vjp_add_1 K (kadd x y) x y) (fun g => ring_jvp_add_1 K g (kadd x y) x y))
+      /\ (is_rule K kadd kmul (fun t => ksub t y) x k1 k0 (ring_vjp_subtract_0 K (ksub x y) x y) (fun g => ring_jvp_subtract_0 K g (ksub x y) x y)
+          /\ is_rule K kadd kmul (fun t => ksub x t) y (kopp k1) k0 (ring_vjp_subtract_1 K kopp (ksub x y) x y)
+                     (fun g => ring_jvp_subtract_1 K kopp g (ksub x y) x y))
+      /\ (is_rule K kadd kmul (fun t => kmul t y) x y k0 (ring_vjp_multiply_0 K kmul (kmul x y) x y) (fun g => kmul g y)
+          /\ is_rule K kadd kmul (fun t => kmul x t) y x k0 (ring_vjp_multiply_1 K kmul (kmul x y) x y) (fun g => kmul x g))
+      /\ is_rule K kadd kmul (fun t => kmul t t) x (kmul (kadd k1 k1) x) k1 (ring_vjp_square_0 K k0 k1 kadd kmul (kmul x x) x)
+                 (fun g => ring_jvp_square_0 K k0 k1 kadd kmul g (kmul x x) x).
+Proof.
+  intros K k0 k1 kadd kmul ksub kopp HR x y.
+  split; [exact (add_rules K k0 k1 kadd kmul ksub kopp HR x y)|].
+  split; [exact (subtract_rules K k0 k1 kadd kmul ksub kopp HR x y)|].
+  split; [exact (multiply_rules K k0 k1 kadd kmul ksub kopp HR x y)|].
+  exact (square_rules K k0 k1 kadd kmul ksub kopp HR x).
+Qed.
+Print Assumptions C02_polynomial_rules_over_any_ring.
